@@ -139,6 +139,42 @@ fn c01_box_easy(i: &Input) -> Outcome {
     }
 }
 
+/// s, a, b (secret keys), n, m: a SEQUENCE on one thread — one sender, two recipient identities (and one peer, two own
+/// identities for the precomputation): every step must equal libsodium, whatever was computed just before with the same peer key.
+pub fn c01_box_same_peer_two_identities(i: &Input) -> Outcome {
+    use dryoc::classic::crypto_box::crypto_box_beforenm;
+    let (s, a, b) = (i.arr::<32>("s"), i.arr::<32>("a"), i.arr::<32>("b"));
+    let (n, m) = (i.arr::<24>("n"), i.get("m"));
+    let (ps, pa, pb) = (so::scalarmult_base(&s), so::scalarmult_base(&a), so::scalarmult_base(&b));
+    for round in 0..2 {
+        for (who, sk, pk) in [("first identity", &a, &pa), ("second identity", &b, &pb)] {
+            // precomputation with the same peer (the sender) under two own secret keys
+            if let Some(want) = so::box_beforenm(&ps, sk) {
+                let k = crypto_box_beforenm(&ps, sk);
+                eq(&format!("crypto_box_beforenm(sender pk, {}) in round {}", who, round), &want, &k)?;
+            }
+            // open a libsodium box from the same sender under two recipient identities
+            if let Some(c) = so::box_easy(m, &n, pk, &s) {
+                let mut out = vec![0u8; m.len()];
+                must_ok(
+                    crypto_box_open_easy(&mut out, &c, &n, &ps, sk),
+                    &format!("crypto_box_open_easy(libsodium box, {}) in round {}", who, round),
+                )?;
+                eq("crypto_box_open_easy plaintext", m, &out)?;
+                let mut buf = c.clone();
+                must_ok(crypto_box_open_easy_inplace(&mut buf, &n, &ps, sk), &format!("crypto_box_open_easy_inplace ({}, round {})", who, round))?;
+            }
+            // encrypt to the same peer from two sender identities
+            if let Some(want) = so::box_easy(m, &n, &ps, sk) {
+                let mut c = vec![0u8; m.len() + 16];
+                must_ok(crypto_box_easy(&mut c, m, &n, &ps, sk), "crypto_box_easy")?;
+                eq(&format!("crypto_box_easy ciphertext ({}, round {})", who, round), &want, &c)?;
+            }
+        }
+    }
+    Ok(())
+}
+
 fn c01_box_detached(i: &Input) -> Outcome {
     let b = box_in(i);
     let (want_c, want_mac) = so::box_detached(b.m, &b.n, &b.pkb, &b.ska).expect("honest keys");
@@ -519,6 +555,7 @@ pub const C01: Registry = &[
     ("secretbox_detached_poly1305_edge", c01_secretbox_detached),
     ("secretbox_inplace_poly1305_edge", c01_secretbox_inplace),
     ("secretbox_object_poly1305_edge", c01_secretbox_object),
+    ("box_same_peer_two_identities", c01_box_same_peer_two_identities),
     ("box_easy_poly1305_edge", c01_box_easy),
     ("box_detached_poly1305_edge", c01_box_detached),
     ("box_afternm_poly1305_edge", c01_box_afternm),
@@ -585,6 +622,12 @@ pub fn c01(ctx: &mut Ctx) -> Search {
                 Input::new().b("k", &k).b("n", &n).b("ska", &ska).b("skb", &skb).b("m", &m).b("ktail", &ktail).b("ntail", &ntail),
             )?;
         }
+    }
+    // sequences on one thread: the same peer key with two own identities, twice over
+    for len in [0usize, 1, 33] {
+        let (sk_s, sk_a, sk_b) = (ctx.rng.arr::<32>(), ctx.rng.arr::<32>(), ctx.rng.arr::<32>());
+        let (n, m) = (ctx.rng.arr::<24>(), ctx.rng.bytes(len));
+        ctx.run("box_same_peer_two_identities", Input::new().b("s", &sk_s).b("a", &sk_a).b("b", &sk_b).b("n", &n).b("m", &m))?;
     }
     // constructed ciphertexts: Poly1305 accumulator on its edge values
     for _ in 0..(if t { 8 } else { 2 }) {
